@@ -112,9 +112,17 @@ fn orchestrate(prop: &str, tier: &str, seed: u64, drv_path: &str, args: &[String
     let mut skips = 0usize;
     let mut done = 0usize;
     let mut driver_requests = 0u64;
-    for mut ch in children {
-        let out = ch.stdout.take().unwrap();
-        for line in BufReader::new(out).lines().flatten() {
+    // drain every worker's pipe concurrently (a worker blocks once its 64 KB pipe is full, which
+    // serialised thorough runs), then merge in shard order so the result does not depend on timing
+    let readers: Vec<std::thread::JoinHandle<Vec<String>>> = children
+        .iter_mut()
+        .map(|ch| {
+            let out = ch.stdout.take().unwrap();
+            std::thread::spawn(move || BufReader::new(out).lines().flatten().collect::<Vec<String>>())
+        })
+        .collect();
+    for (mut ch, rd) in children.into_iter().zip(readers) {
+        for line in rd.join().unwrap_or_default() {
             let v: serde_json::Value = match serde_json::from_str(&line) {
                 Ok(v) => v,
                 Err(_) => continue,
